@@ -1500,3 +1500,109 @@ func literalField(info *types.Info, cl *ast.CompositeLit, field string) ast.Expr
 	}
 	return nil
 }
+
+// nonNilErrDefs finds the assignments that give a local error variable a value
+// that is certainly not nil (errors.New, fmt.Errorf, a pointer to a literal)
+// and, for each, the edges of the first test of that variable against nil
+// that such a value cannot take (the "is nil" side).  After a helper was
+// folded into its caller a failure has this form: err = errors.New(..); the
+// caller's "if err != nil { return err }" follows.
+func nonNilErrDefs(g *core.Graph) map[*core.V][]core.EdgeRef {
+	info := g.Info
+	out := map[*core.V][]core.EdgeRef{}
+	for _, v := range g.Vs {
+		as, ok := v.AST.(*ast.AssignStmt)
+		if !ok || len(as.Lhs) != len(as.Rhs) {
+			continue
+		}
+		for i, l := range as.Lhs {
+			obj := core.ObjOf(info, l)
+			if obj == nil {
+				continue
+			}
+			nonNil := false
+			switch x := ast.Unparen(as.Rhs[i]).(type) {
+			case *ast.CallExpr:
+				k := core.CalleeKey(info, x)
+				nonNil = k == "errors.New" || k == "fmt.Errorf"
+			case *ast.UnaryExpr:
+				if x.Op == token.AND {
+					_, nonNil = ast.Unparen(x.X).(*ast.CompositeLit)
+				}
+			}
+			if !nonNil {
+				continue
+			}
+			// follow the straight line to the first test of the variable; copies made on
+			// the way (the result variable of a folded-in helper handed to the caller's) count
+			names := map[types.Object]bool{obj: true}
+			cur := v
+			for steps := 0; steps < 12; steps++ {
+				if len(cur.Succs) != 1 {
+					break
+				}
+				cur = cur.Succs[0].To
+				if cur == nil {
+					break
+				}
+				if cur.Cond != nil {
+					break
+				}
+				if as2, isAs := cur.AST.(*ast.AssignStmt); isAs && len(as2.Lhs) == len(as2.Rhs) {
+					for j, l2 := range as2.Lhs {
+						o2 := core.ObjOf(info, l2)
+						if o2 == nil {
+							continue
+						}
+						if names[core.ObjOf(info, as2.Rhs[j])] {
+							names[o2] = true
+						} else if names[o2] {
+							delete(names, o2)
+						}
+					}
+				}
+			}
+			if cur == nil || cur.Cond == nil || cur.Cond.Expr == nil {
+				continue
+			}
+			for _, lab := range []core.EdgeLabel{core.EdgeTrue, core.EdgeFalse} {
+				for _, a := range cur.Implied(lab) {
+					cmp, isCmp := a.AsCmp()
+					if !isCmp || cmp.Op != token.EQL {
+						continue
+					}
+					if (names[core.ObjOf(info, cmp.L)] && core.IsNil(info, cmp.R)) || (names[core.ObjOf(info, cmp.R)] && core.IsNil(info, cmp.L)) {
+						out[v] = append(out[v], core.EdgeRef{From: cur, Label: lab})
+					}
+				}
+			}
+		}
+	}
+	return out
+}
+
+// reachSkippingFailures is ReachFrom(start, true, avoid) in which a path that
+// passes an assignment of a certainly non-nil error cannot afterwards take the
+// "error is nil" side of the first test of that error.
+func reachSkippingFailures(g *core.Graph, start *core.V, avoid *core.Avoid) map[*core.V]bool {
+	defs := nonNilErrDefs(g)
+	var dvs []*core.V
+	for d := range defs {
+		dvs = append(dvs, d)
+	}
+	res := g.ReachFrom(start, true, avoid.With(dvs...))
+	probe := g.ReachFrom(start, true, avoid)
+	for d, cuts := range defs {
+		if !probe[d] && d != start {
+			continue
+		}
+		if avoid != nil && avoid.Vs[d] {
+			continue
+		}
+		for v := range g.ReachFrom(d, false, avoid.With(dvs...).WithEdges(cuts...)) {
+			res[v] = true
+		}
+		res[d] = true
+	}
+	return res
+}
